@@ -67,6 +67,90 @@ class AoHost:
         return []
 
 
+class AoRace(AoHost):
+    """live spy / live trace on, two events posted back to back from another thread while the object's own thread hands
+    the first step's lines to the writer: every schedule with <= k preemptions"""
+    name = "c18-ao-race"
+    fair_k = 200
+
+    def setup_process(self):
+        if not self._ready:
+            aoenv.install()
+            import miros.hsm as hsm
+            codes = H.pick_codes(["InstrumenationWriterClass.", "ActiveObject.run_event", "LockingDeque.append"])
+            Q = hsm.HsmWithQueues
+            for n in ("next_rtc", "post_fifo", "scribble"):
+                codes += sched.code_objects_of(vars(Q).get(n) or getattr(hsm.InstrumentedHsmEventProcessor, n))
+            codes += sched.code_objects_of(hsm.append_fifo_to_spy)
+            sched.monitor(list(dict.fromkeys(codes)), "line")
+            self._ready = True
+
+    def body(self, s, p):
+        aoenv.reset()
+        spec = hsmrun.norm(p["spec"])
+        var = p["var"]
+        instr.install_clock("inc")
+        react = {(i, SIG[n]): v for (i, n), v in spec["react"].items()}
+        t = Table(spec["parent"], init=spec["init"], react=react, budget=20000)
+        use(t, var["family"])
+        a = ao_mod.ActiveObject(name="ao")
+        a.live_spy = bool(var.get("live_spy"))
+        a.live_trace = bool(var.get("live_trace"))
+        sink = []
+        a.register_live_spy_callback(sink.append)
+        a.register_live_trace_callback(sink.append)
+        a.start_at(t.S[spec["start"]])
+        s.settle()
+        t.log.clear()
+        s.open_window()
+        for name in spec["events"]:
+            a.post_fifo(ev(name))
+        a.scribble("from outside")
+        s.settle()
+        try:
+            cur = charts.config_of(a)
+        except Exception:  # noqa
+            cur = "?"
+        return {"log": [x for x in t.log if x[0] != "empty"], "state": cur,
+                "thread_exceptions": [x[:3] for x in s.thread_exceptions], "live_lines": len(sink),
+                "alive": bool(a.thread is not None and not a.thread._vt.finished)}
+
+    def check(self, p, ex):
+        var = p["var"]
+        tag = "host=ActiveObject(race)/live_spy=%s/live_trace=%s" % (bool(var.get("live_spy")), bool(var.get("live_trace")))
+        if ex.verdict != "done":
+            return [("%s/%s/%s" % (PID, ex.verdict, tag), "ended with %s: %r" % (ex.verdict, ex.obs))]
+        o = ex.obs
+        out = []
+        if o["thread_exceptions"] or not o["alive"]:
+            out.append(("%s/exception/%s" % (PID, tag), "a thread died (object's thread alive: %s): %r" % (o["alive"], o["thread_exceptions"])))
+        ref = instr.ref_steps(hsmrun.norm(p["spec"]))
+        want = [x for r in ref[1:] for x in r["log"]]
+        if o["log"] != want:
+            out.append(("%s/actions/%s" % (PID, tag), "actions %r, reference %r" % (o["log"], want)))
+        elif o["state"] != ref[-1]["state"]:
+            out.append(("%s/state/%s" % (PID, tag), "rests in %r, reference %r" % (o["state"], ref[-1]["state"])))
+        return out
+
+
+def race_part(res, tier):
+    spec = hsmrun.dump(hsmrun.norm({"parent": (-1, 0), "init": {}, "react": {(1, "A"): ("T", 0), (0, "A"): ("T", 1)},
+                                    "start": 1, "events": ["A", "A"]}))
+    ps = []
+    for ls, lt in ((True, False), (True, True), (False, False)):
+        ps.append({"spec": spec, "var": {"family": "spied", "live_spy": ls, "live_trace": lt}, "bound": 2})
+    st = explore.explore(AoRace(), ps, 2)
+    for key, what, w in st.violations:
+        if sum(1 for x in res.violations if x.key == key) < 2:
+            res.add(Violation(key, what, dict(w, ao_race=True)))
+    res.coverage["ao_race_part"] = {"executions": st.executions, "distinct_outcomes": len(st.outcomes), "verdicts": st.verdicts,
+                                    "rule": "a 2-state spied chart on a real ActiveObject with live spy/trace on or off, two events and a "
+                                            "scribble posted back to back from another thread, every schedule with <= 2 preemptions at the "
+                                            "lines of next_rtc/post_fifo/scribble/the live wrappers/the writer"}
+    res.coverage["evaluations"] = res.coverage.get("evaluations", 0) + st.executions
+    res.coverage["traces_validated_against_impl"] = res.coverage["evaluations"]
+
+
 def judge(p, ex):
     var = p["var"]
     tag = "host=ActiveObject(%s)/family=%s" % ("named" if var.get("name") else "unnamed", var["family"])
@@ -142,6 +226,12 @@ def run_into(res, tier):
 def replay(w):
     from mc.common import Result
     res = Result(PID)
+    if w.get("ao_race"):
+        ex, v = explore.replay(AoRace(), w)
+        print(ex.verdict, ex.obs)
+        for key, what in v:
+            res.add(Violation(key, what, w))
+        return res
     p = {"spec": w["spec"], "var": w["var"]}
     for part in [work([p])]:
         for _, v in part:
